@@ -22,7 +22,7 @@ let e9 = q_frac 1 1_000_000_000
 let qmaxq a b = if qle_bool a b then b else a
 
 type obs = {
-  a : q option; s : q option; at : q option; st : q option; ta : q option; l : q option;
+  a : q option; s : q option; at : q option; st : q option; ta : q option; ts : q option; l : q option;
   c : string; (* "E" | "PANIC" | "x:y" *)
   cxy : (q * q) option; cnan : bool;
   adda : q option; addl : q option; disp : string;
@@ -32,14 +32,14 @@ let fq (h : string) : q option = f64_to_Q (n_of_hex h)
 
 let parse_obs (s : string) : obs =
   let t = Array.of_list (tokens s) in
-  let c = t.(6) in
+  let c = t.(7) in
   let cxy, cnan =
     if c = "E" || c = "PANIC" then (None, false)
     else match String.split_on_char ':' c with
       | [x; y] -> (match fq x, fq y with Some a, Some b -> (Some (a, b), false) | _ -> (None, true))
       | _ -> (None, true) in
-  { a = fq t.(0); s = fq t.(1); at = fq t.(2); st = fq t.(3); ta = fq t.(4); l = fq t.(5);
-    c; cxy; cnan; adda = fq t.(7); addl = fq t.(8); disp = t.(9) }
+  { a = fq t.(0); s = fq t.(1); at = fq t.(2); st = fq t.(3); ta = fq t.(4); ts = fq t.(5); l = fq t.(6);
+    c; cxy; cnan; adda = fq t.(8); addl = fq t.(9); disp = t.(10) }
 
 type grp = { tag : string; dump : string; g : q geomT; o : obs; finite : bool }
 
@@ -77,7 +77,10 @@ let () =
       let id = f.(0) and cls = f.(1) in
       let flags = String.split_on_char ',' f.(2) in
       let co = Array.of_list (List.map int_of_string (String.split_on_char ',' f.(3))) in
-      let tr = affine (z_of_int co.(0)) (z_of_int co.(1)) (z_of_int co.(2)) (z_of_int co.(3)) (z_of_int co.(4)) (z_of_int co.(5)) in
+      let kind = co.(6) in
+      let tr = if kind = 0 then affine (z_of_int co.(0)) (z_of_int co.(1)) (z_of_int co.(2)) (z_of_int co.(3)) (z_of_int co.(4)) (z_of_int co.(5))
+        else nonlinear (z_of_int kind) in
+      count (Printf.sprintf "transform_kind%d" kind);
       let groups = List.map parse_group (Array.to_list (Array.sub f 4 (Array.length f - 4))) in
       incr cases;
       count ("class_" ^ cls);
@@ -88,13 +91,16 @@ let () =
       (* ---------------- per group: model vs implementation, and the per-geometry statements *)
       let check_group (gr : grp) =
         let tg = gr.tag in
-        let nm s = if tg = "base" then s else s ^ "@" ^ (List.hd (String.split_on_char ':' tg)) in
+        (* one check name for the base and its variants; the variant tag goes into the detail *)
+        let nm s = s in
+        let failc kind name detail = failc kind name (if tg = "base" then detail else "[variant " ^ tg ^ "] " ^ detail) in
         if not gr.finite then failc "CORR" (nm "nonfinite_input") gr.dump
         else begin
           let g = gr.g and o = gr.o in
           let mag = magnitude g in
           let mag2 = mag */ mag in
-          let magt = (q_of_int 6 */ mag) +/ q_of_int 3 in
+          (* bound of the transformed ordinates: affine |a|+|b| <= 6, |c| <= 3; non-linear x*x + y *)
+          let magt = if kind = 0 then (q_of_int 6 */ mag) +/ q_of_int 3 else (mag */ mag) +/ mag in
           let atol = if lattice then q0 else e12 */ mag2 in
           let attol = if lattice then q0 else e12 */ (magt */ magt) in
           let ctol = (if lattice then e12 else e9) */ mag in
@@ -114,6 +120,11 @@ let () =
            | Some x, Some y ->
              if not (q_close x y (attol +/ attol)) then
                failc "SPEC" (nm "transform_option") (Printf.sprintf "with=%s transformed=%s %s" (qs x) (qs y) gr.dump)
+           | _ -> failc "SPEC" (nm "nan_transform") gr.dump);
+          (match o.st, o.ts with
+           | Some x, Some y ->
+             if not (q_close x y (attol +/ attol)) then
+               failc "SPEC" (nm "transform_option_signed") (Printf.sprintf "with=%s transformed=%s %s" (qs x) (qs y) gr.dump)
            | _ -> failc "SPEC" (nm "nan_transform") gr.dump);
           (* length: bracketed by rational square roots at 2^-80 *)
           let l_lo = unscale (geom_length sqrt_lo_scaled g) and l_hi = unscale (geom_length sqrt_hi_scaled g) in
@@ -139,6 +150,18 @@ let () =
                   failc "CORR" (nm "centroid")
                     (Printf.sprintf "impl=(%s,%s) model=(%s,%s) %s" (qs (fst c)) (qs (snd c)) (qs (fst m)) (qs (snd m)) gr.dump)
               | None -> ()));
+          (* the driver evaluates the lineal formulas with 2^80 * sqrt (integers): lengths are divided
+             by 2^80 afterwards and the centroid is a ratio, unchanged by the factor.  Cross-checked
+             here on every sixteenth case with the unscaled bracket: the results must be identical. *)
+          if tg = "base" && int_of_string id mod 16 = 0 && lattice then begin
+            count "sqrt_scale_crosscheck";
+            let same_o a b = match a, b with
+              | CRes (Some p), CRes (Some q) -> qeq_bool (fst p) (fst q) && qeq_bool (snd p) (snd q)
+              | CRes None, CRes None | CPanic, CPanic -> true
+              | _ -> false in
+            if not (same_o mc (centroid_outcome sqrt_lo g)) then failc "CORR" "sqrt_scale_centroid" gr.dump;
+            if not (qeq_bool l_lo (geom_length sqrt_lo g)) then failc "CORR" "sqrt_scale_length" gr.dump
+          end;
           if tg = "base" then begin
             count (Printf.sprintf "hdim%d_%s" (int_of_nat (hdim g)) (if is_empty g then "empty" else "nonempty"));
             (match g with GColl _ -> count "type_collection" | GPoly _ -> count "type_polygon" | GMPoly _ -> count "type_multipolygon"
@@ -228,7 +251,8 @@ let () =
          and three variants; the relations below still use the outputs of every variant *)
       List.iter (fun (gr : grp) ->
           let k = List.hd (String.split_on_char ':' gr.tag) in
-          if lattice || k = "base" || k = "rot" || k = "rev" || k = "tr" then check_group gr) groups;
+          if k = "sc" then ()   (* extreme magnitudes: only the scaling relations below *)
+          else if lattice || k = "base" || k = "rot" || k = "rev" || k = "tr" then check_group gr) groups;
       (* ---------------- relations between the base and its variants *)
       if valid && base.finite then begin
         let b = base.o in
@@ -279,6 +303,29 @@ let () =
                        if lattice && not (geom_map qred (geom_tr (translate (dx, dy)) base.g) = v.g) then
                          failc "CORR" "translate_structure" d
                      | _ -> ())
+                  | _ -> ())
+               | "sc" ->
+                 (* ordinates times 2^k, |k| > 512: squares of ordinates are not representable, lengths
+                    and centroids are.  Length and Centroid must be 2^k times those of the base. *)
+                 (match String.split_on_char ':' v.tag with
+                  | [_; ks] ->
+                    let k = int_of_string ks in
+                    let p2 = Z.pow_pos (Zpos (XO XH)) (pos_of_int (abs k)) in
+                    let f = if k > 0 then inject_Z p2 else qinv (inject_Z p2) in
+                    count "scale_variants";
+                    (match b.l, o.l with
+                     | Some lb, Some lv ->
+                       if not (q_close lv (lb */ f) (e12 */ (lb */ f))) then
+                         failc "SPEC" "length_scale" (Printf.sprintf "k=%d base=%s variant/2^k=%s %s" k (qs lb) (qs (qdiv lv f)) v.dump)
+                     | Some _, None -> failc "SPEC" "length_scale" (Printf.sprintf "k=%d variant length is not finite %s" k v.dump)
+                     | _ -> ());
+                    if o.cnan then failc "SPEC" "centroid_scale" (Printf.sprintf "k=%d variant centroid %s %s" k o.c v.dump)
+                    else (match b.cxy, o.cxy with
+                        | Some p, Some q ->
+                          if not (xy_close (xy_scale p f) q (e9 */ (mag */ f))) then
+                            failc "SPEC" "centroid_scale" (Printf.sprintf "k=%d base=(%s,%s) variant/2^k=(%s,%s) %s" k (qs (fst p)) (qs (snd p)) (qs (qdiv (fst q) f)) (qs (qdiv (snd q) f)) v.dump)
+                        | None, None -> if b.c <> o.c then failc "SPEC" "centroid_scale" (b.c ^ " vs " ^ o.c ^ " " ^ v.dump)
+                        | _ -> failc "SPEC" "centroid_scale" (Printf.sprintf "k=%d base %s variant %s %s" k b.c o.c v.dump))
                   | _ -> ())
                | _ -> ())
             end) groups
